@@ -9,6 +9,14 @@ BUILD = os.path.join(WORK, 'build')
 BUILD_ASAN = os.path.join(WORK, 'build-asan')
 GUARD = 'CPPCMS_VERIF'
 NCPU = os.cpu_count() or 4
+# development throttle: when many workers share the machine, .work/throttle holds the number of jobs each tool run may use
+for _t in (os.path.join(WORK, 'throttle'), '/tmp/verif-throttle'):
+    try:
+        NCPU = max(1, min(NCPU, int(open(_t).read().strip())))
+    except Exception:
+        pass
+if os.environ.get('VERIF_JOBS'):
+    NCPU = max(1, int(os.environ['VERIF_JOBS']))
 
 sys.path.insert(0, os.path.join(VERIF, 'tools'))
 
@@ -66,7 +74,7 @@ def build_repo(asan=False):
                     '-DDISABLE_STATIC=ON', '-DCMAKE_CXX_FLAGS=' + flags, '-DCMAKE_C_FLAGS=' + flags] + extra)
             if p.returncode != 0:
                 return False, (p.stdout + p.stderr).decode(errors='replace')[-4000:]
-        p = sh(['ninja', '-C', d, 'cppcms', 'booster'])
+        p = sh(['ninja', '-j%d' % NCPU, '-C', d, 'cppcms', 'booster'])
         if p.returncode != 0:
             return False, (p.stdout + p.stderr).decode(errors='replace')[-4000:]
     return True, ''
